@@ -259,3 +259,54 @@ Proof.
   split; [apply (loop_spec_model s nx _ c Hs Hc)|].
   unfold i_right. pose proof (Z.mod_pos_bound (disp_scaled s (grid_min ny nx g) k) s Hs). lia.
 Qed.
+
+(* Per-pixel bounds that are not whole pixels (the grids the multiscale step derives from refined disparities, float
+   grid files).  The generated test compares two reals; read with the unit 1/(4 s) pixel (scale argument 1, the
+   sample D/s written 4 D, a quarter-pixel bound q/4 written q s) it decides the quarter-pixel grids: the cost is
+   removed exactly when the sample is outside [gq/4, hq/4] as rationals ... *)
+Lemma gen_interval_test_quarter : forall s gq hq r c D, 0 < s ->
+  G.cv_masked_out_of_range 1 (fun r c => gq r c * s) (fun r c => hq r c * s) r c (4 * D) = true
+  <-> (Qlt (D # Z.to_pos s) (gq r c # 4) \/ Qlt (hq r c # 4) (D # Z.to_pos s)).
+Proof.
+  intros s gq hq r c D Hs. rewrite gen_out_of_range_eq. unfold Qlt. cbn [Qnum Qden].
+  rewrite Z2Pos.id by exact Hs. rewrite orb_true_iff, !Z.ltb_lt. lia.
+Qed.
+
+(* ... hence the samples kept at a pixel are those from the CEILING of the lower bound to the FLOOR of the upper
+   bound (in samples): a lower bound is never rounded down *)
+Lemma gen_interval_kept_quarter : forall s gq hq r c D, 0 < s ->
+  G.cv_masked_out_of_range 1 (fun r c => gq r c * s) (fun r c => hq r c * s) r c (4 * D) = false
+  <-> - ((- (gq r c * s)) / 4) <= D <= (hq r c * s) / 4.
+Proof.
+  intros s gq hq r c D Hs. rewrite gen_out_of_range_eq. rewrite orb_false_iff, !Z.ltb_ge.
+  pose proof (Z.div_mod (- (gq r c * s)) 4 ltac:(lia)) as E1.
+  pose proof (Z.mod_pos_bound (- (gq r c * s)) 4 ltac:(lia)) as B1.
+  pose proof (Z.div_mod (hq r c * s) 4 ltac:(lia)) as E2.
+  pose proof (Z.mod_pos_bound (hq r c * s) 4 ltac:(lia)) as B2.
+  lia.
+Qed.
+
+(* whole-pixel bounds (q = 4 g) read in the finer unit give the test of the model's unit *)
+Lemma gen_interval_test_quarter_whole : forall s g h r c D, 0 < s ->
+  G.cv_masked_out_of_range 1 (fun r c => 4 * g r c * s) (fun r c => 4 * h r c * s) r c (4 * D)
+  = G.cv_masked_out_of_range s g h r c D.
+Proof.
+  intros s g h r c D Hs. rewrite !gen_out_of_range_eq.
+  destruct (D <? g r c * s) eqn:A, (h r c * s <? D) eqn:B,
+           (4 * D <? 4 * g r c * s * 1) eqn:A', (4 * h r c * s * 1 <? 4 * D) eqn:B'; try reflexivity;
+    rewrite ?Z.ltb_lt, ?Z.ltb_ge in *; lia.
+Qed.
+
+Lemma gen_interval_test_quarter_all : forall s gq hq r c D, 0 < s ->
+  (G.cv_masked_out_of_range 1 (fun r c => gq r c * s) (fun r c => hq r c * s) r c (4 * D) = true
+   <-> (Qlt (D # Z.to_pos s) (gq r c # 4) \/ Qlt (hq r c # 4) (D # Z.to_pos s)))
+  /\ (G.cv_masked_out_of_range 1 (fun r c => gq r c * s) (fun r c => hq r c * s) r c (4 * D) = false
+      <-> - ((- (gq r c * s)) / 4) <= D <= (hq r c * s) / 4)
+  /\ (forall g h, G.cv_masked_out_of_range 1 (fun r c => 4 * g r c * s) (fun r c => 4 * h r c * s) r c (4 * D)
+                  = G.cv_masked_out_of_range s g h r c D).
+Proof.
+  intros s gq hq r c D Hs. split; [|split].
+  - apply gen_interval_test_quarter; exact Hs.
+  - apply gen_interval_kept_quarter; exact Hs.
+  - intros g h. apply gen_interval_test_quarter_whole; exact Hs.
+Qed.
